@@ -77,6 +77,7 @@ type Engine struct {
 	Probes   []Hash // never-accepted hashes to look up
 	Crash    CrashStats
 	opIdx    int
+	lastClass string
 }
 
 type CrashStats struct {
@@ -271,6 +272,9 @@ func (e *Engine) Submit(hd *wire.BlockHeader, note string) []string {
 		classes = append(classes, e.submitOne(in, hd))
 	}
 	e.compareTwins(hd, classes)
+	if len(classes) > 0 {
+		e.lastClass = classes[len(classes)-1]
+	}
 	return classes
 }
 
